@@ -19,6 +19,9 @@ struct / tuple / unit variants, generic tagged enum, alias, generic alias); ever
      prefixes, and every imported name must be defined by the other module's file (kotlin_import_part).
      Generic parameters: the field `v: T` of every generic struct must be printed with the type `T` (positional), and
      one program in ten has an item called `T` (the class Known_shadow).
+     The shape of the renamed definition (definition_shape_part): tagged enums with one / two / many variants, declared or
+     skipped down to that; unit enums with no / one / several variants; unit, empty and skipped-to-empty structs; newtype
+     structs; aliases; serialized_as items; the generic version of each - renamed and referred to from every position.
 """
 import itertools, re
 from common import *
@@ -1033,6 +1036,276 @@ def variant_names_part(check):
                         broken="correspondence L2 enum helper-struct names (theorems TsV.C09.tie_*)")
 
 
+# ----------------------------------------------------------------------------- the shape of the renamed definition
+
+# every shape the parser / the back ends treat on a path of their own: (shape, class of the definition, may be generic)
+SHAPES = [
+    ("tagged-1-newtype", "enum", True), ("tagged-1-struct", "enum", True), ("tagged-2", "enum", True), ("tagged-many", "enum", True),
+    ("tagged-skipped-to-1", "enum", True), ("tagged-skipped-to-2", "enum", True), ("tagged-skipped-to-many", "enum", True),
+    ("unit-0", "enum", False), ("unit-1", "enum", False), ("unit-2", "enum", False), ("unit-many", "enum", False),
+    ("unit-skipped-to-0", "enum", False), ("unit-skipped-to-1", "enum", False), ("unit-skipped-to-2", "enum", False),
+    ("struct-unit", "struct", False), ("struct-empty", "struct", False), ("struct-skipped-to-0", "struct", True),
+    ("struct-1", "struct", True), ("struct-many", "struct", True), ("struct-skipped-to-1", "struct", True),
+    ("newtype", "alias", True), ("alias-primitive", "alias", False), ("alias-container", "alias", True),
+    ("sas-struct", "alias", False), ("sas-enum", "alias", False),
+]
+SHAPE_ORIGINALS = ["Event", "Command", "Packet", "Status", "Marker", "Ticket"]      # (no builtin of any target language among them)
+SKIP_WAYS = ["typeshare", "serde", "cfg"]        # typeshare(skip) / serde(skip) / cfg(target_os = other) under --target-os
+
+
+def shape_rename(rng, name, k):
+    """a new name that begins with / ends with / has nothing to do with the Rust name (and sorts before or after it)"""
+    return rng.choice(["Wire" + name, name + "Dto", "Api%sV2" % name, ["Zulu", "Able", "Mike"][k % 3] + "Msg%d" % k])
+
+
+def shape_item(rng, shape, name, new, generic, payload):
+    """-> (syn_gen item, does the request need a target os).  `payload`: a type the kept members carry (a primitive or a
+    reference to an earlier item of the program); a generic definition mentions its parameter `T` in a kept member where the
+    shape has one"""
+    ts = m_path("typeshare")
+    serde = [m_nv("rename", lit_s(new))] if new else []
+    gens = [("ty", "T")] if generic else []
+    needs_os = [False]
+
+    def skip_attr():
+        way = rng.choice(SKIP_WAYS)
+        if way == "cfg":
+            needs_os[0] = True
+            return [m_list("cfg", [m_nv("target_os", lit_s("android"))])]
+        return [m_list(way, [m_path("skip")])]
+
+    def variant(kind, ident, ty, attrs=()):
+        if kind == "u":
+            fs = ("unit",)
+        elif kind == "n":
+            fs = ("unnamed", [field([], None, ty)])
+        else:
+            fs = ("named", [field([], "x", ty), field([], "note", t_path("String"))])
+        return {"attrs": list(attrs), "ident": ident, "fields": fs}
+
+    tparam = t_path("T") if generic else payload
+    if shape.startswith("tagged"):
+        kept_n = {"tagged-1-newtype": 1, "tagged-1-struct": 1, "tagged-2": 2, "tagged-many": rng.randint(3, 5), "tagged-skipped-to-1": 1,
+                  "tagged-skipped-to-2": 2, "tagged-skipped-to-many": rng.randint(3, 4)}[shape]
+        first = "n" if shape == "tagged-1-newtype" else "s" if shape == "tagged-1-struct" else rng.choice("ns")
+        kinds = [first] + [rng.choice("uns") for _ in range(kept_n - 1)]
+        kept = [variant(k, "K%d%s" % (i, {"u": "Unit", "n": "Tuple", "s": "Struct"}[k]), tparam if i == 0 else payload) for i, k in enumerate(kinds)]
+        rng.shuffle(kept)
+        vs = kept
+        if "skipped" in shape:
+            gone = [variant(rng.choice("uns"), "Gone%d" % i, t_path("u32"), skip_attr()) for i in range(rng.randint(1, 3))]
+            vs = kept + gone
+            rng.shuffle(vs)
+        serde += [m_nv("tag", lit_s("type")), m_nv("content", lit_s("content"))]
+        rng.shuffle(serde)
+        return {"kind": "enum", "attrs": [ts, m_list("serde", serde)], "ident": name, "generics": gens, "variants": vs}, needs_os[0]
+    if shape.startswith("unit"):
+        kept_n = {"unit-0": 0, "unit-1": 1, "unit-2": 2, "unit-many": rng.randint(3, 6), "unit-skipped-to-0": 0, "unit-skipped-to-1": 1,
+                  "unit-skipped-to-2": 2}[shape]
+        vs = [variant("u", "Unit%d" % i, None) for i in range(kept_n)]
+        if "skipped" in shape:
+            # without serde(tag) the variants that are not shared may be of any kind: what is left decides
+            vs += [variant(rng.choice("uuns"), "Gone%d" % i, t_path("u32"), skip_attr()) for i in range(rng.randint(1, 3))]
+            rng.shuffle(vs)
+        return {"kind": "enum", "attrs": [ts] + ([m_list("serde", serde)] if serde else []), "ident": name, "generics": [], "variants": vs}, needs_os[0]
+    attrs = [ts] + ([m_list("serde", serde)] if serde else [])
+    if shape in ("sas-struct", "sas-enum"):
+        attrs = [m_list("typeshare", [m_nv("serialized_as", lit_s("String"))])] + attrs[1:]
+        if shape == "sas-enum":
+            return {"kind": "enum", "attrs": attrs, "ident": name, "generics": [], "variants": [variant("u", "Pa", None), variant("n", "Qa", t_path("u8"))]}, False
+        return {"kind": "struct", "attrs": attrs, "ident": name, "generics": [], "fields": ("named", [field([], "p", t_path("u32"))])}, False
+    if shape.startswith("struct"):
+        if shape == "struct-unit":
+            return {"kind": "struct", "attrs": attrs, "ident": name, "generics": [], "fields": ("unit",)}, False
+        kept_n = {"struct-empty": 0, "struct-skipped-to-0": 0, "struct-1": 1, "struct-many": rng.randint(2, 5), "struct-skipped-to-1": 1}[shape]
+        fs = [field([], "k%d" % i, tparam if i == 0 else rng.choice([payload, t_path("String"), t_path("Option", [payload])])) for i in range(kept_n)]
+        if "skipped" in shape:
+            # (a generic definition without a kept member keeps its parameter in a member that is not shared)
+            fs += [field(skip_attr(), "gone%d" % i, t_path("T") if generic and i == 0 else t_path("u32")) for i in range(rng.randint(1, 3))]
+            rng.shuffle(fs)
+        return {"kind": "struct", "attrs": attrs, "ident": name, "generics": gens, "fields": ("named", fs)}, needs_os[0]
+    if shape == "newtype":
+        ty = t_path("Vec", [t_path("T")]) if generic else payload
+        return {"kind": "struct", "attrs": attrs, "ident": name, "generics": gens, "fields": ("unnamed", [field([], None, ty)])}, False
+    if shape == "alias-primitive":
+        return {"kind": "alias", "attrs": attrs, "ident": name, "generics": [], "ty": t_path(rng.choice(["String", "u32", "bool"]))}, False
+    if shape == "alias-container":
+        inner = t_path("T") if generic else payload
+        ty = rng.choice([t_path("Vec", [inner]), t_path("Option", [inner]), t_path("HashMap", [t_path("String"), inner])])
+        return {"kind": "alias", "attrs": attrs, "ident": name, "generics": gens, "ty": ty}, False
+    raise ValueError(shape)
+
+
+def shape_program(rng, lead):
+    """2-4 definitions of the shapes above (the first one of the shape `lead`), three in four of them renamed, each referred to
+    from a field, a container element, a generic argument, an alias target, a tuple-variant payload and a struct-variant member
+    of the other items; declaration order shuffled.  -> (abstract file, plan, needs a target os)"""
+    ts = m_path("typeshare")
+    n = rng.randint(2, 4)
+    by_name = dict((s[0], s) for s in SHAPES)
+    chosen = [by_name[lead]] + [rng.choice(SHAPES) for _ in range(n - 1)]
+    originals = rng.sample(SHAPE_ORIGINALS, n)
+    plan, items, needs_os = [], [], False
+    for k, ((shape, cls, can_generic), name) in enumerate(zip(chosen, originals)):
+        new = shape_rename(rng, name, k) if (k == 0 or rng.random() < 0.7) else None
+        generic = can_generic and rng.random() < 0.35
+        payload = t_path(rng.choice(["u32", "String", "bool"]))
+        if plan and rng.random() < 0.4:
+            p = rng.choice(plan)                         # an earlier definition as the payload: renamed shapes refer to each other
+            payload = t_path(p["name"], [t_path("u32")] if p["generic"] else [])
+        it, os_ = shape_item(rng, shape, name, new, generic, payload)
+        needs_os = needs_os or os_
+        items.append(it)
+        plan.append({"name": name, "new": new, "shape": shape, "class": cls, "generic": generic})
+
+    def ref(p):
+        if not p["generic"]:
+            return t_path(p["name"])
+        others = [q for q in plan if q is not p and not q["generic"]]
+        arg = t_path(rng.choice(others)["name"]) if others and rng.random() < 0.4 else t_path(rng.choice(["String", "u32"]))
+        return t_path(p["name"], [arg])
+
+    conts = [lambda t: t_path("Vec", [t]), lambda t: t_path("Option", [t]), lambda t: t_path("HashMap", [t_path("String"), t]),
+             lambda t: t_path("Option", [t_path("Vec", [t])]), lambda t: ("array", t, 4), lambda t: t_path("Box", [t])]
+    hf, variants = [], []
+    for k, p in enumerate(plan):
+        hf.append(field([], "direct%d" % k, ref(p)))
+        hf.append(field([], "inside%d" % k, rng.choice(conts)(ref(p))))
+        hf.append(field([], "argument%d" % k, rng.choice([t_path("Wrapper", [ref(p)]), t_path("Wrapper", [t_path("Vec", [ref(p)])]),
+                                                           t_path("Vec", [t_path("Wrapper", [ref(p)])])])))
+        tgt = rng.choice([ref(p), t_path("Vec", [ref(p)]), t_path("Option", [ref(p)]), t_path("Wrapper", [ref(p)])])
+        items.append({"kind": "alias", "attrs": [ts], "ident": "%sAlias" % p["name"], "generics": [], "ty": tgt})
+        variants.append({"attrs": [], "ident": "Tuple%d" % k, "fields": ("unnamed", [field([], None, rng.choice([ref(p), t_path("Vec", [ref(p)])]))])})
+        variants.append({"attrs": [], "ident": "Struct%d" % k, "fields": ("named", [field([], "one", ref(p)), field([], "some", t_path("Option", [ref(p)]))])})
+    rng.shuffle(hf)
+    items.append({"kind": "struct", "attrs": [ts], "ident": "Holder", "generics": [], "fields": ("named", hf)})
+    items.append({"kind": "struct", "attrs": [ts], "ident": "Wrapper", "generics": [("ty", "T")],
+                  "fields": ("named", [field([], "inner", t_path("T")), field([], "list", t_path("Vec", [t_path("T")]))])})
+    variants.append({"attrs": [], "ident": "Nothing", "fields": ("unit",)})
+    items.append({"kind": "enum", "attrs": [ts, m_list("serde", [m_nv("tag", lit_s("t")), m_nv("content", lit_s("c"))])], "ident": "Carrier",
+                  "generics": [], "variants": variants})
+    rng.shuffle(items)
+    return {"attrs": [], "items": items}, plan, needs_os
+
+
+def code_of(lang, text):
+    """the generated text without its comments (the comment of a helper struct names the *Rust* enum it comes from)"""
+    if lang == "python":
+        text = re.sub(r'"""[\s\S]*?"""', "", text)
+        return "\n".join(l for l in text.split("\n") if not l.lstrip().startswith("#"))
+    text = re.sub(r"/\*[\s\S]*?\*/", "", text)
+    return "\n".join(l for l in text.split("\n") if not l.lstrip().startswith("//"))
+
+
+def definition_shape_part(check):
+    """The dimension explored: the *shape* of the definition that carries serde(rename) - every kind of item the parser or a back
+    end writes on a path of its own: tagged enums with one / two / many variants (unit, tuple, struct variants; declared so, or
+    with the other variants removed by typeshare(skip) / serde(skip) / cfg(target_os) under --target-os), unit enums with no /
+    one / several variants (again declared or skipped down), unit structs, structs without members (declared or skipped down),
+    structs with one / several members, newtype structs, aliases of primitives and containers, serialized_as items, and the
+    generic version of each shape that can have one - each renamed to a name that begins with / ends with / has nothing to do
+    with the Rust name, and referred to from a field, a container element, a generic argument, an alias target, a tuple-variant
+    payload, a struct-variant member and the members of the other renamed definitions; declaration order shuffled; all six
+    back ends, prefixes for Swift / Kotlin.
+    Demanded (the property on the implementation's text): (1) every referenced name is a defined name (C09's own oracle);
+    (2) a renamed item is defined under its new name, and its Rust name occurs nowhere in the output - with the one listed
+    exception (Go names enums after the Rust identifier: definition-under-original-name).  Also compared: model text =
+    implementation text (bytes), and TsV.C09.allDefs / refs = the names extracted from the implementation's text."""
+    rng = check.rng
+    g = mkgen(rng)
+    rounds = 40 if check.thorough else 6
+    mreqs, rreqs, freqs, meta, allnames = [], [], [], [], set()
+    for k in range(rounds * len(SHAPES)):
+        lead = SHAPES[k % len(SHAPES)][0]
+        f, plan, needs_os = shape_program(rng, lead)
+        target_os = ["ios"] if needs_os else []
+        allnames |= l2.names_of(f)
+        for lang in LANGS:
+            pfx = rng.choice(PREFIXES) if lang in ("kotlin", "swift") else ""
+            cfg = cfg_of(lang, pfx)
+            m, r, texts = l2.requests(lang, cfg, [{"crate": "", "file_name": "out", "path": "src/lib.rs", "file": f}], g, target_os=target_os)
+            mreqs.append(m)
+            rreqs.append(r)
+            freqs.append([S("c09-facts"), l2.lang_sx(lang, cfg), list(target_os), g.ext_sx(), [["", "out", "src/lib.rs", sx_file(f, texts[0])]]])
+            meta.append((lang, pfx, plan, target_os, texts[0], r))
+    both = model(mreqs + freqs, names=allnames)
+    mans, fans = both[:len(mreqs)], both[len(mreqs):]
+    rans = runner(rreqs)
+    mismatch, found = None, []
+    for (lang, pfx, plan, target_os, src, rreq), ma, fa, ra in zip(meta, mans, fans, rans):
+        renamed = [p for p in plan if p["new"]]
+        check.saw(("definition-shape", lang, pfx, src), nontrivial=bool(renamed))
+        check.count("definition-shape-programs-" + lang)
+        case = {"lang": lang, "prefix": pfx, "target_os": target_os, "source": src, "request": rreq,
+                "definitions": [(p["name"], p["new"], p["shape"], "generic" if p["generic"] else "") for p in plan]}
+        if "ok" not in ra:
+            check.count("definition-shape-not-generated")
+        else:
+            if lang == "python":
+                for p in renamed:
+                    check.count("renamed-shape:%s%s" % (p["shape"], "<T>" if p["generic"] else ""))
+            text = list(ra["ok"].values())[0]
+            defs, aux, refs, params, fields = extract(lang, text)
+            code = code_of(lang, text)
+            ppfx = pfx if lang in ("kotlin", "swift") else ""
+            go_enum = lambda p: lang == "go" and p["class"] == "enum"
+            # (1) the oracle of the property: every referenced name is defined
+            failing = {n for n in refs if n not in defs and n not in BUILTIN[lang] and n not in params | {"T"}}
+            listed = {ppfx + p["new"] for p in renamed if go_enum(p)}
+            if failing & listed:
+                check.count("known:def-original")
+                check.known("definition-under-original-name", {"lang": lang, "source": src, "undefined_references": sorted(failing & listed)})
+            if not check.known_open("definition-under-original-name"):
+                listed = set()
+            bad = None
+            if failing - listed:
+                who = [p for p in plan if ppfx + (p["new"] or p["name"]) in failing - listed]
+                bad = ("%s output refers to %s, which it does not define (defined: %s)%s"
+                       % (lang, sorted(failing - listed), sorted(defs - aux),
+                          "".join("; `%s` is the %s definition `%s`%s renamed by serde(rename)" % (ppfx + p["new"], p["shape"], p["name"],
+                                  "<T>" if p["generic"] else "") for p in who if p["new"])))
+            else:
+                # (2) the renamed definition is emitted under its new name and the Rust name is gone
+                for p in renamed:
+                    if go_enum(p) and check.known_open("definition-under-original-name"):
+                        continue
+                    word = lambda w: re.search(r"(?<![A-Za-z0-9_])%s(?![A-Za-z0-9_])" % re.escape(w), code)
+                    if ppfx + p["new"] not in defs or word(ppfx + p["name"]) or word(p["name"]):
+                        bad = ("%s: the %s definition `%s`%s carries serde(rename = \"%s\"): the output must define and refer to `%s` only, but it "
+                               "defines %s and still spells the Rust name in %r"
+                               % (lang, p["shape"], p["name"], "<T>" if p["generic"] else "", p["new"], ppfx + p["new"], sorted(defs - aux),
+                                  [l for l in code.split("\n") if re.search(r"(?<![A-Za-z0-9_])(%s)?%s(?![A-Za-z0-9_])" % (re.escape(ppfx), re.escape(p["name"])), l)][:4]))
+                        break
+            if bad:
+                found.append((len(src), len(found), bad, case, ra, ma))
+                continue
+        if mismatch is not None:
+            continue
+        check.count("definition-shape-compared-with-model")
+        if l2.norm(ma) != l2.norm(ra):
+            d = l2.text_diff(list(ma["ok"].values())[0], list(ra["ok"].values())[0]) if "ok" in ma and "ok" in ra else "%s vs %s" % (str(ma)[:200], str(ra)[:200])
+            mismatch = ("the %s model's text differs from the implementation's on a renamed definition of a special shape: %s" % (lang, d),
+                        case, ma, ra, BROKEN["correspondence"])
+        elif "ok" in ra:
+            if "ok" not in fa:
+                mismatch = ("c09-facts failed: %s" % str(fa)[:200], case, fa, ra, BROKEN["facts"])
+                continue
+            mdefs, mrefs = set(fa["ok"]["defs"]), {r[1] for r in fa["ok"]["refs"]}
+            urefs = {n for n in refs if n not in BUILTIN[lang] and n not in aux}
+            if mdefs != defs - aux or mrefs != urefs:
+                mismatch = ("TsV.C09.allDefs/refs differ from the names extracted from the implementation's text: defs %s vs %s, refs %s vs %s"
+                            % (sorted(mdefs), sorted(defs - aux), sorted(mrefs), sorted(urefs)), case, fa, ra, BROKEN["facts"])
+    if found:
+        # the shortest failing program is reported (it explains the differences from the model as well)
+        _, _, bad, case, ra, ma = min(found)
+        check.count("definition-shape-failing-programs", len(found))
+        check.violation(bad, case=case, impl=ra, model=ma, failing_input=True)
+        return
+    if mismatch:
+        what, case, ma, ra, broken = mismatch
+        check.violation(what, case=case, impl=ra, model=ma, failing_input=False, broken=broken)
+
+
 def classes_of(c):
     return sorted(set().union(*c["expected"].values())) if c["expected"] else []
 
@@ -1047,7 +1320,11 @@ def run(check):
                   "for Swift/Kotlin; all six back ends.  Compared: model text = implementation text (bytes); names defined "
                   "/ referred to according to TsV.C09.allDefs/refs (Lean, request c09-facts) = names extracted from the "
                   "implementation's text; references to undefined names = exactly those in a Known_* class.  non-trivial "
-                  "= some item with serde(rename) is referred to" % (NAMES, KINDS, PREFIXES))
+                  "= some item with serde(rename) is referred to.  definition_shape_part: programs of 2-4 definitions over the shapes %s "
+                  "(generic where the shape allows), renamed, each referred to from a field, a container element, a generic argument, an "
+                  "alias target, a tuple-variant payload and a struct-variant member; every referenced name must be defined, the new name "
+                  "defined and the Rust name gone (Go enums: listed finding); model text and TsV.C09.allDefs/refs compared as well"
+                  % (NAMES, KINDS, PREFIXES, [s[0] for s in SHAPES]))
     cases = []
     n = 3000 if check.thorough else 1500
     for i in range(n):
@@ -1089,6 +1366,8 @@ def run(check):
             check.sample({"lang": c["lang"], "prefix": c["pfx"], "source": c["source"], "undefined_references": {k: sorted(v) for k, v in c["expected"].items()}})
     report(check, problems)
     replay_witnesses(check)
+    if not check.has_failing():
+        definition_shape_part(check)
     if not check.has_failing():
         multi_part(check)
     if not check.has_failing():
